@@ -15,6 +15,10 @@ extern int verif_outcome;
 typedef struct { const char *name; void (*fn)(void); } verif_harness_t;
 extern verif_harness_t verif_harness_table[];
 extern int verif_harness_count;
+/* exhaustive / bounded native enumerations (stand-ins for obligations no installed back end decides): fn(start, count, &first_fail) -> failures */
+typedef struct { const char *name; uint64_t (*fn)(uint64_t, uint64_t, uint64_t *); } verif_exh_t;
+extern verif_exh_t verif_exh_table[];
+extern int verif_exh_count;
 
 #include <unistd.h>
 static FILE *vout;   /* our own channel: the real code's printf diagnostics go to /dev/null */
@@ -79,6 +83,18 @@ int main(int argc, char **argv)
             fflush(vout); return (checks_failed_this || verif_outcome >= 3) ? 1 : 0;   /* outcomes >= 3 are illegal exits */
         }
         fprintf(vout, "no such harness %s\n", argv[2]);
+        return 2;
+    }
+    if (argc >= 5 && !strcmp(argv[1], "exhaustive")) {
+        for (int h = 0; h < verif_exh_count; h++) {
+            if (strcmp(verif_exh_table[h].name, argv[2])) continue;
+            uint64_t start = strtoull(argv[3], 0, 10), count = strtoull(argv[4], 0, 10), first = ~0ull;
+            uint64_t f = verif_exh_table[h].fn(start, count, &first);
+            fprintf(vout, "%s start=%llu count=%llu failed=%llu first=%llu\n", argv[2], (unsigned long long)start, (unsigned long long)count, (unsigned long long)f, (unsigned long long)first);
+            fflush(vout);
+            return f ? 1 : 0;
+        }
+        fprintf(vout, "no such enumeration %s\n", argv[2]); fflush(vout);
         return 2;
     }
     if (argc >= 4 && !strcmp(argv[1], "fidelity")) {
